@@ -585,6 +585,7 @@ func (m *c12Machine) Classify() (bool, []string) {
 			cl = append(cl, "skipped:"+k)
 		}
 	}
+	cl = append(cl, w.shapeClasses()...)
 	return m.cnt.sectionsNonEmpty >= 5 && durable >= 1 && m.cnt.roundTrips >= 1, cl
 }
 
